@@ -201,6 +201,12 @@ def discharge(F, site):
         at = strip(at)
         if at[0] == 'binop' and at[1] == 'Sub' and strip(at[2]) == ('len', recv):
             return 'D2', 'the cut position is len() - k of the same vector, hence within it'
+        # the cut position n is within the vector because a dominating guard says so: len() > n / len() >= n
+        for f in facts:
+            if f[0] in ('Gt', 'Ge') and strip(f[1]) == ('len', recv) and strip(f[2]) == at:
+                return 'D1', 'cut position <= len() of the same vector established by a dominating guard'
+            if f[0] in ('Lt', 'Le') and strip(f[2]) == ('len', recv) and strip(f[1]) == at:
+                return 'D1', 'cut position <= len() of the same vector established by a dominating guard'
         return None
     if n.endswith('::unwrap') or n.endswith('::expect'):
         v = strip(args[0])
@@ -875,6 +881,31 @@ def d3_table(ctx):
             return symbols_pairing(ctx, site)
         return False, 'not an access to the context / scope stack'
 
+    def nonempty_cut(ctx, site):
+        # contexts.drain(1..) / symbols.split_off(1) / ...: cutting the context or scope stack back to its first entry needs
+        # that entry to exist (R09.1)
+        fn = site['f']
+        if len(site['term']['args']) != 2:
+            return False, 'not covered'
+        recv, at = str(sym(fn, site['term']['args'][0])), strip(sym(fn, site['term']['args'][1]))
+        if at[0] == 'agg' and str(at[1]).endswith('RangeFrom') and at[3]:
+            at = strip(at[3][0])
+        if at == ('int', 1) and (recv.rstrip("')").endswith("'contexts") or recv.rstrip("')").endswith("'symbols")):
+            return symbols_pairing(ctx, site)
+        return False, 'not covered'
+
+    def nonempty_case(ctx, site):
+        # `[] => unreachable!()` of a slice pattern over the context / scope stack: the panic is reached only where the length of
+        # that stack is 0 (or not >= 1), which the pairing invariant excludes (R09.1)
+        fn = site['f']
+        for f in facts_at(fn, site['block']):
+            if f[0] in ('Eq', 'Lt', 'Le'):
+                a, c_ = strip(f[1]), strip(f[2])
+                if a[0] == 'len' and ("'contexts'" in str(a) or "'symbols'" in str(a)) and c_[0] == 'int' and \
+                        ((f[0] == 'Eq' and c_[1] == 0) or (f[0] == 'Lt' and c_[1] <= 1) or (f[0] == 'Le' and c_[1] == 0)):
+                    return symbols_pairing(ctx, site)
+        return False, 'not covered'
+
     def nonempty_index0(ctx, site):
         # contexts[0] / symbols[0]: the global context and the outermost scope of a context always exist (R09.1)
         fn = site['f']
@@ -1175,6 +1206,8 @@ def d3_table(ctx):
         ('<lexer::Tokenizer*', 'index', 'local+R08.3', offset_slice),
         ('lexer::Tokenizer*', 'index', 'local+R08.3', offset_slice),
         ('symbols::*', 'unwrap', 'local+R09.1', nonempty_stack),
+        ('symbols::*', 'drain|split_off', 'local+R09.1', nonempty_cut),
+        ('symbols::*', 'panic_fmt|panicking::panic', 'local+R09.1', nonempty_case),
         ('symbols::*', 'index', 'local+R09.1', nonempty_index0),
         ('object::Object::as_f64', 'assert_failed', 'tag-checked callers', tag_checked_callers),
         ('object::Object::as_str', 'assert_failed', 'tag-checked callers', tag_checked_callers),
@@ -1284,7 +1317,7 @@ def verdict_for(ctx, s, rows=None, cache=None):
                     verdict = (True, 'ENV: failure of host I/O (%s), not of an input text' % src[1])
         if verdict is None:
             for (rf, rw, rule, ver) in rows:
-                if rf != s['fn'] and not (rf.endswith('*') and s['fn'].startswith(rf[:-1])):
+                if rf != s['fn'] and rf != s['fn'].split('::{closure')[0] and not (rf.endswith('*') and s['fn'].startswith(rf[:-1])):
                     continue
                 if rw is not None and not any(w in what for w in rw.split('|')):
                     continue
